@@ -23,7 +23,7 @@ RULE = ("hypothesis-generated values (derandomised from the seed) from the lossl
         "x level; non-trivial = not a bare scalar None/bool")
 ASSUMPTIONS = ["ints bounded by CPython's int<->str digit limit", "datetimes: naive, whole milliseconds, TZ=UTC",
                "values a serializer refuses are only required to be refused on every path alike"]
-REQUIRED_REACH = ["decimal_uuid_text_checked", "shards_with_one_sided_replacements", "huge_int_cases", "concurrent_wire_calls", "shards_with_serpent_bytes_repr", "codec_core_ok", "codec_ext_ok", "wire_ok", "wire_batch_ok", "wire_stream_ok", "wire_compressed_request", "wire_compressed_reply", "wire_with_annotations", "codec_memoryview_same"]
+REQUIRED_REACH = ["wire_slow_link_cases", "decimal_uuid_text_checked", "shards_with_one_sided_replacements", "huge_int_cases", "concurrent_wire_calls", "shards_with_serpent_bytes_repr", "codec_core_ok", "codec_ext_ok", "wire_ok", "wire_batch_ok", "wire_stream_ok", "wire_compressed_request", "wire_compressed_reply", "wire_with_annotations", "codec_memoryview_same"]
 SHARD_TIMEOUT = {"quick": 220, "thorough": 2400}
 RAISED = object()
 
@@ -258,7 +258,7 @@ def consume(it):
         it.close()
 
 
-def check_wire(fx, svc, name, x, is_core, pad, rec, seq):
+def check_wire(fx, svc, name, x, is_core, pad, rec, seq, mkproxy=None):
     P = fx.P
     key = "k%d" % seq
     svc.store[key] = [pad, x]
@@ -271,7 +271,9 @@ def check_wire(fx, svc, name, x, is_core, pad, rec, seq):
     fx.daemon.reply_annotations = {"SRVR": b"s%d" % seq} if annotated else None
     if annotated:
         rec.count("wire_with_annotations")
-    if seq % 3 == 0:
+    if mkproxy is not None:
+        pctx = mkproxy(name)
+    elif seq % 3 == 0:
         # one long-lived proxy whose serializer is switched between calls (a documented per-proxy setting): each call travels in the
         # serializer selected for it
         live = getattr(fx, "live_proxy", None)
@@ -585,6 +587,25 @@ def run_shard(shard, rec):
                 rec.count("deeply_nested_values")
         gen.draw_many(gen.core_values(12), shard["n"], seed + 5, core_case)
         gen.draw_many(gen.ext_values(8), shard["n"] // 2, seed + 6, ext_case)
+        if shard["i"] < 2:
+            # a slow link: the proxy has a timeout (its socket is in timeout mode, data goes out through the send loop made for that) and a
+            # small kernel send buffer, so that large requests leave in many partial sends; the values are large lossless-core values
+            import socket as _socket
+
+            def slow_proxy(sername):
+                sp = fx.proxy("echo", serializer=sername, timeout=12.0)
+                sp._pyroBind()
+                sp._pyroConnection.sock.setsockopt(_socket.SOL_SOCKET, _socket.SO_SNDBUF, 4096)
+                return sp
+            nv = len(rec.violations)
+            for big in ("é" * 70000, {"k%d" % i: [i, "v" * 20, None, 1.5, 2 ** 70 + i] for i in range(2500)}):
+                for name in fixture.SERIALIZERS:
+                    if len(rec.violations) > nv:
+                        break            # (every further case would wait for its timeout as well)
+                    seqc[0] += 1
+                    rec.case(("wire-slow-link", name, shard["servertype"], shard["compression"], seqc[0]), nontrivial=True)
+                    check_wire(fx, svc, name, big, True, "", rec, seqc[0], mkproxy=slow_proxy)
+                    rec.count("wire_slow_link_cases")
         if shard["servertype"] == "thread":
             concurrent_wire_phase(fx, svc, rec, r)
         if shard["i"] == 0:
